@@ -37,8 +37,8 @@ CHECKS["C06"] = dict(
                 "exercised. Divergences are attributed to one sufficient cause per node and key (signature quiescent-divergence:<cause>); each "
                 "cause is matched against known_findings separately. Env C06_EXCLUDE=<sig-or-cause,...> suppresses classes locally "
                 "(investigation aid); C06_NORESTART=1 generates no stop/start."),
-    tests=[dict(name="TestC06Order", quick=dict(cases=5000, shards=1, shrinktime="30s"),
+    tests=[dict(name="TestC06Order", quick=dict(cases=2500, shards=2, shrinktime="30s"),
                 thorough=dict(cases=12000, shards=4, timeout=1500)),
-           dict(name="TestC06Cluster", quick=dict(cases=2000, shards=2, shrinktime="30s"),
+           dict(name="TestC06Cluster", quick=dict(cases=800, shards=5, shrinktime="30s"),
                 thorough=dict(cases=5000, shards=16, timeout=1500, shrinktime="120s"))],
 )
